@@ -87,6 +87,26 @@ class Unmodelled(Exception):
     """the object has no image in the Coq value ADT (oracle-only case)"""
 
 
+def ovars(x) -> dict:
+    """the attributes the serializer sees: the declared fields of an attrs class (also when they live in
+    slots; a field that is unset, e.g. skipped at load time, is absent), else vars(x)"""
+    fields = getattr(type(x), "__attrs_attrs__", None)
+    if fields is not None:
+        return {f.name: getattr(x, f.name) for f in fields if hasattr(x, f.name)}
+    return vars(x)
+
+
+def other_id(x) -> int:
+    """content id of a value that takes the gzip+dill fallback"""
+    return H("other", type(x).__module__, type(x).__qualname__, repr(x))
+
+
+ABC_DOMAIN = ["numbers.Number", "numbers.Complex", "numbers.Real", "numbers.Rational", "numbers.Integral",
+              "collections.abc.Sequence", "collections.abc.MutableSequence", "collections.abc.Mapping",
+              "collections.abc.MutableMapping", "collections.abc.Set", "collections.abc.MutableSet"]
+_CLEANUP = []
+
+
 # ------------------------------------------------------------------------------------------
 # spec -> real object
 def _arr_from_spec(dt, shape, seed, layout):
@@ -172,7 +192,7 @@ def build(spec):
         from . import c01_classes as cc
         o = cc.CLASSES[spec[1]]()
         for kk, v in spec[2]:
-            o.__dict__[kk] = build(v)
+            setattr(o, kk, build(v))
         return o
     if k == "logger":
         lg = logging.getLogger(spec[1])
@@ -186,6 +206,11 @@ def build(spec):
         return np.random.RandomState(spec[1])
     if k == "complex":
         return complex(spec[1], spec[2])
+    if k == "summarywriter":
+        from torch.utils.tensorboard import SummaryWriter
+        d = tempfile.mkdtemp(prefix="c01sw_")
+        _CLEANUP.append(d)
+        return SummaryWriter(log_dir=os.path.join(d, spec[1]))
     # ---- torch kinds
     import torch
     if k == "tensor":
@@ -233,9 +258,9 @@ def build(spec):
             if sched is not None:
                 sched.step()
         return sched if k == "scheduler" else opt
-    if k == "summarywriter":
-        from torch.utils.tensorboard import SummaryWriter
-        return SummaryWriter(log_dir=spec[1])
+    if k == "paramlist":
+        torch.manual_seed(spec[1])
+        return torch.nn.ParameterList([torch.nn.Parameter(torch.randn(2)), torch.nn.Parameter(torch.randn(1, 2))])
     raise ValueError("unknown spec kind %r" % (k,))
 
 
@@ -387,6 +412,9 @@ def alpha(x, loaded=False, stats=None) -> str:
         st("bool")
         return "(VBool %s)" % cbool(x)
     if isinstance(x, np.generic):
+        if isinstance(x, np.complexfloating) and not isinstance(x, np.clongdouble):
+            st("npscalar-complex")          # dill fallback (fixes/C01-npscalar-complex.diff)
+            return "(VOther %s %s)" % (clist(cs(t) for t in mro_names(x)), cz(other_id(x)))
         st("npscalar")
         if not isinstance(x, (np.bool_, np.integer, np.floating)) or isinstance(x, np.longdouble):
             raise Unmodelled("numpy scalar %s" % type(x).__name__)
@@ -429,13 +457,13 @@ def alpha(x, loaded=False, stats=None) -> str:
         return "(VRng %s %s)" % (cs(bg), "JNull" if loaded else "(JOpaque %s)" % cz(rng_state_id(x.bit_generator.state)))
     if isinstance(x, complex):
         st("other")
-        return "(VOther %s %s)" % (clist(cs(t) for t in mro_names(x)), cz(H("complex", repr(x))))
+        return "(VOther %s %s)" % (clist(cs(t) for t in mro_names(x)), cz(other_id(x)))
     from quantem.core.io.serialize import AutoSerialize
     import torch
     if isinstance(x, AutoSerialize) and not isinstance(x, torch.nn.Module):
         st("object")
         return "(VObj %s %s %s)" % (cs(type(x).__module__), cs(type(x).__qualname__),
-                                    clist("(%s, %s)" % (cs(k), rec(v)) for k, v in vars(x).items()))
+                                    clist("(%s, %s)" % (cs(k), rec(v)) for k, v in ovars(x).items()))
     import torch
     if isinstance(x, (torch.Tensor, torch.optim.Optimizer, torch.nn.Module, torch.Generator)) or (
             hasattr(x, "step") and hasattr(x, "get_last_lr")):
@@ -486,7 +514,7 @@ def _walk_array(arr, role):
             import dill
             obj = dill.loads(gzip.decompress(data.tobytes()))
             return {"dtype": "uint8", "shape": [1],
-                    "data": ("bytes", "dill", mro_names(obj), H("complex", repr(obj)) if isinstance(obj, complex) else H("dill", repr(obj))),
+                    "data": ("bytes", "dill", mro_names(obj), other_id(obj)),
                     "attrs": attrs}
         except Exception:
             pass
@@ -596,6 +624,8 @@ def _canon_elem(x):
         return ("tuple", tuple(_canon_elem(v) for v in x))
     if isinstance(x, pathlib.PurePath):
         return ("path", str(x))
+    if isinstance(x, np.random.Generator):
+        return ("rng", type(x.bit_generator).__name__)
     return (type(x).__name__, repr(x))
 
 
@@ -615,15 +645,16 @@ def graph_diff(a, b, exact=False, path="obj", out=None):
         if type(b) is not type(a):
             d("object:class", "class %s became %s" % (type(a).__name__, type(b).__name__))
             return out
-        na, nb = set(vars(a)), set(vars(b))
+        va, vb = ovars(a), ovars(b)
+        na, nb = set(va), set(vb)
         for nm in sorted(nb - na):
             d("attr-names:extra:" + (nm if nm.startswith("_autoserialize") else "other"),
-              "loaded object has extra attribute %r = %s" % (nm, _short(vars(b)[nm])))
+              "loaded object has extra attribute %r = %s" % (nm, _short(vb[nm])))
         for nm in sorted(na - nb):
-            d("attr-names:missing:" + _kind(vars(a)[nm]), "attribute %r (%s) is missing after load" % (nm, _kind(vars(a)[nm])))
-        for nm in vars(a):
+            d("attr-names:missing:" + _kind(va[nm]), "attribute %r (%s) is missing after load" % (nm, _kind(va[nm])))
+        for nm in va:
             if nm in nb:
-                graph_diff(vars(a)[nm], vars(b)[nm], exact, path + "." + nm, out)
+                graph_diff(va[nm], vb[nm], exact, path + "." + nm, out)
         return out
     if ka in ("none", "bool", "int", "str", "complex"):
         if type(b) is not type(a) or a != b:
@@ -647,7 +678,7 @@ def graph_diff(a, b, exact=False, path="obj", out=None):
         elif isinstance(a, np.floating):
             ok = type(b) in (float, type(a)) and _numval(a) == _numval(b)
         else:
-            ok = type(b) in (complex, type(a)) and complex(a) == complex(b)
+            ok = type(b) in (complex, type(a)) and complex(a) == complex(b) and (type(b) is type(a) or not exact)
         if not ok:
             d("npscalar:value", "%s(%r) became %s (%s)" % (type(a).__name__, a, _short(b), type(b).__name__))
         return out
@@ -800,7 +831,7 @@ def guard_vector(v):
             hasattr(v, "add_scalar") and hasattr(v, "add_image"), hasattr(v, "log") and hasattr(v, "info"),
             isinstance(v, torch.nn.Module) or (hasattr(v, "__module__") and "torch" in str(v.__module__)),
             isinstance(v, np.ndarray), isinstance(v, (int, float, str, bool, type(None))),
-            hasattr(v, "dtype") and hasattr(v, "item"),
+            hasattr(v, "dtype") and hasattr(v, "item") and not isinstance(v, np.complexfloating),
             hasattr(v, "__fspath__") or str(type(v)).startswith("<class 'pathlib."),
             AutoSerialize._is_autoserialize_instance(v), isinstance(v, (list, tuple, dict)), isinstance(v, set),
             hasattr(v, "bit_generator"), hasattr(v, "get_state") and hasattr(v, "set_state")]
@@ -811,7 +842,7 @@ def leaves(x, acc):
     from quantem.core.io.serialize import AutoSerialize
     acc.append(x)
     if isinstance(x, AutoSerialize):
-        for v in vars(x).values():
+        for v in ovars(x).values():
             leaves(v, acc)
     elif isinstance(x, (list, tuple, set)):
         for v in x:
@@ -856,11 +887,13 @@ def run_case(case):
                 seen.add(kk)
                 gv = guard_vector(lf)
                 res["disp"].append({"term": t, "guards": [bool(g) for g in gv], "mro": mro_names(lf),
-                                    "type": type(lf).__name__})
+                                    "type": type(lf).__name__,
+                                    "abcs": [n for n, t_ in zip(ABC_DOMAIN, resolve_types(ABC_DOMAIN)) if isinstance(lf, t_)]})
         cfg = case["cfg"]
         sn_s = case.get("skip_save_names", [])
         st_s = case.get("skip_save_types", [])
         sn_l = case.get("skip_load_names", [])
+        st_l = case.get("skip_load_types", [])
         skip_s = list(sn_s) + resolve_types(st_s)
         # save() stores list(set(names)): the interpreter's set order is an input of the model
         res["sn_order"] = list({x for x in skip_s if isinstance(x, str)})
@@ -878,7 +911,7 @@ def run_case(case):
             res["notes"].append("store not modelled: %s" % u)
         # ---------------- load
         try:
-            ld = real_load(p, skip=sn_l)
+            ld = real_load(p, skip=list(sn_l) + resolve_types(st_l))
         except Exception as e:  # noqa
             res["diffs"].append(("%s:load-raises-%s" % (label, _exc_key(e)), "load raised %s: %s" % (type(e).__name__, str(e)[:160])))
             res["load_exc"] = traceback.format_exc()[-600:]
@@ -895,7 +928,16 @@ def run_case(case):
         res["harness_exc"] = traceback.format_exc()[-1500:]
     finally:
         shutil.rmtree(tmp, ignore_errors=True)
+        while _CLEANUP:
+            shutil.rmtree(_CLEANUP.pop(), ignore_errors=True)
     return res
+
+
+def _term_or_none(f, *a, **k):
+    try:
+        return f(*a, **k)
+    except Unmodelled:
+        return None
 
 
 def _oracle_c01(case, obj, ld, p, tree, tmp, res):
@@ -909,7 +951,10 @@ def _oracle_c01(case, obj, ld, p, tree, tmp, res):
         try:
             cfg2 = dict(cfg, mode="w")
             p2 = real_save(ld, tmp, cfg2, tag="second")
+            res["obs2"] = _term_or_none(lambda: node_term(walk(p2)))       # the store written by the second save
+            res["ld_s"] = _term_or_none(alpha, ld)                         # the loaded object as saved (rng states as they are)
             ld2 = real_load(p2)
+            res["ld2"] = _term_or_none(alpha, ld2, loaded=True)
             for k, m in graph_diff(ld, ld2, exact=True):
                 res["diffs"].append((pre + "fixpoint:" + k, "second save/load is not a fixed point: " + m))
             res["fixpoint_done"] = True
@@ -921,6 +966,7 @@ def _oracle_c01(case, obj, ld, p, tree, tmp, res):
             cfg3 = dict(case["other_store"])
             p3 = real_save(obj, tmp, cfg3, tag="other")
             tree3 = walk(p3)
+            res["obs3"] = _term_or_none(node_term, tree3)                  # the other store, as written
             if tree_canon(tree3) != tree_canon(tree):
                 res["diffs"].append((pre + "store-independence:tree", "store contents differ between %s and %s" % (cfg, cfg3)))
             ld3 = real_load(p3)
@@ -938,7 +984,7 @@ def survivors(obj, names, types):
     {attr: None | {...nested...}}"""
     from quantem.core.io.serialize import AutoSerialize
     out = {}
-    for k, v in vars(obj).items():
+    for k, v in ovars(obj).items():
         if k in names or (types and isinstance(v, tuple(types))):
             continue
         out[k] = survivors(v, names, types) if isinstance(v, AutoSerialize) else None
@@ -953,19 +999,20 @@ def pruned_diff(ref, got, surv, path="obj", out=None, values=True):
     if type(got) is not type(ref):
         out.append(("skip:class", "%s: class %s became %s" % (path, type(ref).__name__, type(got).__name__)))
         return out
-    have = set(vars(got))
+    vref, vgot = ovars(ref), ovars(got)
+    have = set(vgot)
     for nm in sorted(have - set(surv)):
         out.append(("skip:still-present" + (":" + nm if nm.startswith("_autoserialize") else ""),
                     "%s: attribute %r should have been skipped but is present" % (path, nm)))
     for nm in sorted(set(surv) - have):
-        if nm in vars(ref):
+        if nm in vref:
             out.append(("skip:lost-survivor", "%s: attribute %r was not skipped but is missing" % (path, nm)))
     for nm, sub in surv.items():
-        if nm in have and nm in vars(ref):
+        if nm in have and nm in vref:
             if sub is not None:
-                pruned_diff(vars(ref)[nm], vars(got)[nm], sub, path + "." + nm, out, values)
+                pruned_diff(vref[nm], vgot[nm], sub, path + "." + nm, out, values)
             elif values:
-                for k, m in graph_diff(vars(ref)[nm], vars(got)[nm], exact=True, path=path + "." + nm):
+                for k, m in graph_diff(vref[nm], vgot[nm], exact=True, path=path + "." + nm):
                     out.append(("skip:survivor-changed:" + k, m))
     return out
 
@@ -978,9 +1025,11 @@ def _oracle_c14(case, obj, ld, tmp, res):
     pb = real_save(obj, tmp, dict(cfg, mode="w"), tag="base")
     base = real_load(pb)
     surv = survivors(obj, set(sn_s) | set(sn_l), types)
-    # graphs with objects inside containers are outside C14's quantifier: attribute names only
-    for k, m in pruned_diff(base, ld, surv, values=not case.get("container_objects")):
-        res["diffs"].append((k, "save skip=%s+%s, load skip=%s: %s" % (sn_s, st_s, sn_l, m)))
+    # graphs with objects inside containers are outside C14's quantifier: attribute names only.  Load-time TYPE
+    # skipping is not part of the property text (the code does it by exact type): correspondence only.
+    if not case.get("skip_load_types"):
+        for k, m in pruned_diff(base, ld, surv, values=not case.get("container_objects")):
+            res["diffs"].append((k, "save skip=%s+%s, load skip=%s: %s" % (sn_s, st_s, sn_l, m)))
     names = sorted(set(sn_s) | set(sn_l))
     if case.get("save_eq_load") and names:
         # skipping the names at load time only == skipping them at save time only
